@@ -281,6 +281,9 @@ func (d *SimDirectory) Rename(oldName path.Component, newDirectory filesystem.Di
 	return nil
 }
 
+// Close implements io.Closer (the real wiring receives a DirectoryCloser).
+func (d *SimDirectory) Close() error { return nil }
+
 // Sync implements Directory.Sync.
 func (d *SimDirectory) Sync() error {
 	if err := d.gate("dirsync"); err != nil {
